@@ -576,19 +576,15 @@ class RoutePart:
                 if callable(getattr(dmod, "random", None)):            # a demux that draws with `from random import random`
                     saved_mod = dmod.random
                     dmod.random = draws
-            old_h = signal.signal(signal.SIGALRM, _hang)
-            t_start = time.time()
-            old_t = signal.setitimer(signal.ITIMER_REAL, 2.0, 0.5)     # repeating: every spinning process gets its own alarm
             try:
-                log = h.run(max_steps=30000)
+                # per-step, repeating guard (props/elem_common.hang_guard): a slow run is not a hanging run
+                with ec.hang_guard(h, lambda: RuntimeError("a process of the switch loops without yielding"), first=2.0, every=0.5, grace=3):
+                    log = h.run(max_steps=30000)
             except RuntimeError as e:
                 log = h.log
                 h.raised = ["Hang", str(e)]
                 h.exhausted = False
             finally:
-                left = max(old_t[0] - (time.time() - t_start), 0.05) if old_t[0] else 0
-                signal.signal(signal.SIGALRM, old_h)
-                signal.setitimer(signal.ITIMER_REAL, left, 1.0 if left else 0)
                 if scripted:
                     del _random._inst.random
                     if saved_mod is not None:
